@@ -128,10 +128,14 @@ type contractSet struct {
 // guardDecl: fields of a struct that may only be accessed while its mutex is held.
 type guardDecl struct {
 	pkgPath  string
+	recvName string
 	recvType string // "*Context"
 	mutex    string // field name of the mutex
 	fields   []string
-	where    string
+	// rely: two-state conditions on the guarded fields that every other goroutine is
+	// assumed to respect between a release and the next acquisition (old = at release)
+	rely  []clause
+	where string
 }
 
 // typeInvariant is sugar: the expression is added to the requires and ensures of
@@ -297,7 +301,7 @@ func newContractSet() *contractSet {
 var clauseKeywords = map[string]bool{
 	"prop": true, "requires": true, "ensures": true, "modifies": true, "loop": true, "trusted": true,
 	"pure": true, "panics-if": true, "nopanic": true, "maypanic": true, "mode": true, "decreases": true, "refines": true,
-	"noframe": true, "nil-receiver-ok": true, "go-sync": true, "witness": true, "modifies-if": true, "using": true, "noinv": true, "rec": true, "preserves": true, "ghost-writes": true, "defines": true,
+	"noframe": true, "nil-receiver-ok": true, "go-sync": true, "witness": true, "modifies-if": true, "using": true, "noinv": true, "rec": true, "preserves": true, "ghost-writes": true, "defines": true, "rely": true,
 }
 
 var reLoop = regexp.MustCompile(`^(\d+)\s*:\s*(invariant|decreases)\s+(.*)$`)
@@ -379,11 +383,22 @@ func (cs *contractSet) loadContractFile(path, pkgPath string) error {
 			if len(rf) != 2 || !strings.HasPrefix(mu, rf[0]+".") {
 				return fmt.Errorf("%s: bad guarded declaration", where)
 			}
-			gd := &guardDecl{pkgPath: pkgPath, recvType: rf[1], mutex: strings.TrimPrefix(mu, rf[0]+"."), where: where}
+			gd := &guardDecl{pkgPath: pkgPath, recvName: rf[0], recvType: rf[1], mutex: strings.TrimPrefix(mu, rf[0]+"."), where: where}
 			for _, f := range strings.Split(rest[colon+1:], ",") {
 				if f = strings.TrimSpace(f); f != "" {
 					gd.fields = append(gd.fields, f)
 				}
+			}
+			for _, cl := range b.clauses {
+				if !strings.HasPrefix(cl, "rely ") {
+					return fmt.Errorf("%s: guarded declarations take rely clauses only", where)
+				}
+				src := strings.TrimSpace(strings.TrimPrefix(cl, "rely "))
+				e, err := parseCExpr(src)
+				if err != nil {
+					return fmt.Errorf("%s: %v", where, err)
+				}
+				gd.rely = append(gd.rely, clause{src: src, e: e, label: fmt.Sprintf("rely:%d", len(gd.rely)+1), where: where})
 			}
 			cs.guards = append(cs.guards, gd)
 		case "invariant", "ginvariant":
